@@ -2,7 +2,7 @@
 from __future__ import annotations
 
 import ast
-from typing import Dict, List, Optional, Set
+from typing import Dict, List, Optional, Set, Tuple
 
 from ..vals import root_of
 from .common import CURVE_FIELDS, R, reach_cut, seg
@@ -2580,4 +2580,199 @@ def div_by_value(r: R, chk, quals: List[str], rule="D-VALUE"):
                        func=q, construct=f"division by a value of the curve: {seg(div, 30)}")
     if not bad:
         chk.ob(rule, f"no division by a value of the curve in {', '.join(x.split('.')[-1] for x in quals)} ({n} divisions)", True, loc="")
+    return n
+
+
+# ---------------------------------------------------------------------------------------------------------
+# NODE-LOCAL: the answer for one node does not depend on the nodes before it (no forward-only cursor)
+def _expr_reads(e) -> List[ast.Name]:
+    """Name loads of an expression, without the names bound by comprehensions / lambdas inside it"""
+    if e is None:
+        return []
+    bound = set()
+    for n in ast.walk(e):
+        if isinstance(n, ast.comprehension):
+            bound |= {x.id for x in ast.walk(n.target) if isinstance(x, ast.Name)}
+        elif isinstance(n, ast.Lambda):
+            bound |= {a.arg for a in n.args.args}
+    return [n for n in ast.walk(e) if isinstance(n, ast.Name) and isinstance(n.ctx, ast.Load) and n.id not in bound]
+
+
+def _target_names(t) -> Set[str]:
+    if isinstance(t, ast.Name):
+        return {t.id}
+    if isinstance(t, (ast.Tuple, ast.List)):
+        return set().union(*[_target_names(x) for x in t.elts]) if t.elts else set()
+    if isinstance(t, ast.Starred):
+        return _target_names(t.value)
+    return set()
+
+
+def loop_carried(loop) -> Dict[str, List[ast.AST]]:
+    """names that one iteration of `loop` may read with the value an earlier iteration left (read before they are
+    definitely assigned in the iteration, and assigned somewhere in the body).  Syntax-directed definite assignment."""
+    body_assigned: Set[str] = set()
+    for n in ast.walk(ast.Module(body=list(loop.body), type_ignores=[])):
+        if isinstance(n, ast.Assign):
+            for t in n.targets:
+                body_assigned |= _target_names(t)
+        elif isinstance(n, (ast.AugAssign, ast.AnnAssign)):
+            body_assigned |= _target_names(n.target)
+        elif isinstance(n, (ast.For, ast.comprehension)):
+            if isinstance(n, ast.For):
+                body_assigned |= _target_names(n.target)
+        elif isinstance(n, ast.NamedExpr):
+            body_assigned |= _target_names(n.target)
+        elif isinstance(n, ast.withitem) and n.optional_vars is not None:
+            body_assigned |= _target_names(n.optional_vars)
+    carried: Dict[str, List[ast.AST]] = {}
+
+    def use(e, assigned, stmt):
+        for nm in _expr_reads(e):
+            if nm.id in body_assigned and nm.id not in assigned:
+                carried.setdefault(nm.id, []).append(stmt)
+
+    def meet(a, b):
+        if a is None:
+            return b
+        if b is None:
+            return a
+        return a & b
+
+    def walk(stmts, assigned):
+        for s in stmts:
+            if assigned is None:
+                return None
+            if isinstance(s, ast.Assign):
+                use(s.value, assigned, s)
+                for t in s.targets:
+                    if not isinstance(t, (ast.Name, ast.Tuple, ast.List)):
+                        use(t, assigned, s)
+                    assigned = assigned | _target_names(t)
+            elif isinstance(s, ast.AugAssign):
+                use(s.value, assigned, s)
+                if isinstance(s.target, ast.Name):
+                    if s.target.id in body_assigned and s.target.id not in assigned:
+                        carried.setdefault(s.target.id, []).append(s)
+                    assigned = assigned | {s.target.id}
+                else:
+                    use(s.target, assigned, s)
+            elif isinstance(s, ast.AnnAssign):
+                use(s.value, assigned, s)
+                if s.value is not None:
+                    assigned = assigned | _target_names(s.target)
+            elif isinstance(s, ast.If):
+                use(s.test, assigned, s)
+                assigned = meet(walk(s.body, set(assigned)), walk(s.orelse, set(assigned)))
+            elif isinstance(s, ast.For):
+                use(s.iter, assigned, s)
+                walk(s.body, set(assigned) | _target_names(s.target))
+                assigned = walk(s.orelse, set(assigned))
+            elif isinstance(s, ast.While):
+                use(s.test, assigned, s)
+                walk(s.body, set(assigned))
+                assigned = walk(s.orelse, set(assigned))
+            elif isinstance(s, ast.Try):
+                a = walk(s.body, set(assigned))
+                for h in s.handlers:
+                    walk(h.body, set(assigned))
+                if a is not None:
+                    walk(s.orelse, set(a))
+                walk(s.finalbody, set(assigned))
+            elif isinstance(s, ast.With):
+                for it in s.items:
+                    use(it.context_expr, assigned, s)
+                    if it.optional_vars is not None:
+                        assigned = assigned | _target_names(it.optional_vars)
+                assigned = walk(s.body, assigned)
+            elif isinstance(s, (ast.Return, ast.Raise)):
+                use(getattr(s, "value", None) or getattr(s, "exc", None), assigned, s)
+                return None
+            elif isinstance(s, (ast.Break, ast.Continue)):
+                return None
+            elif isinstance(s, (ast.FunctionDef, ast.ClassDef, ast.Import, ast.ImportFrom, ast.Pass, ast.Global, ast.Nonlocal)):
+                continue
+            else:
+                for c in ast.iter_child_nodes(s):
+                    if isinstance(c, ast.expr):
+                        use(c, assigned, s)
+        return assigned
+
+    first = set(_target_names(loop.target)) if isinstance(loop, ast.For) else set()
+    if isinstance(loop, ast.While):
+        use(loop.test, first, loop)
+    walk(loop.body, first)
+    return carried
+
+
+def _cursors(loop) -> List[Tuple[str, ast.AST, ast.AST]]:
+    """(name, conditional update, use) of every forward-only cursor of the loop: carried over the iterations, every
+    definition inside the loop is made from its own previous value, at least one of them under a condition of the
+    body, and the body reads it outside of its own updates"""
+    out = []
+    car = loop_carried(loop)
+    if not car:
+        return out
+    nested: Dict[int, bool] = {}
+
+    def mark(stmts, cond):
+        for s in stmts:
+            nested[id(s)] = cond
+            for f in ("body", "orelse", "finalbody"):
+                mark(getattr(s, f, []) or [], True)
+            for h in getattr(s, "handlers", []) or []:
+                mark(h.body, True)
+
+    mark(loop.body, False)
+    for name in sorted(car):
+        defs = []
+        own = True
+        for s in ast.walk(ast.Module(body=list(loop.body), type_ignores=[])):
+            if isinstance(s, ast.AugAssign) and isinstance(s.target, ast.Name) and s.target.id == name:
+                defs.append(s)
+            elif isinstance(s, ast.Assign) and any(name in _target_names(t) for t in s.targets):
+                defs.append(s)
+                if not (len(s.targets) == 1 and isinstance(s.targets[0], ast.Name) and any(n.id == name for n in _expr_reads(s.value))):
+                    own = False
+            elif isinstance(s, ast.For) and name in _target_names(s.target):
+                own = False
+            elif isinstance(s, (ast.NamedExpr,)) and name in _target_names(s.target):
+                own = False
+        if not own or not defs:
+            continue
+        cond = [d for d in defs if nested.get(id(d))]
+        uses = [u for u in car[name] if u not in defs]
+        if cond and uses:
+            out.append((name, cond[0], uses[0]))
+    return out
+
+
+def node_local(r: R, chk, entries: List[str], rule="NODE-LOCAL", floor: int = 1):
+    """every loop over the caller's nodes on the evaluation path: no forward-only cursor (a position that is only ever
+    advanced from its own previous value, under a test, and that the body reads) — the caller's nodes are in no
+    particular order, so the answer for a node would depend on the nodes before it"""
+    from .common import expand_locals
+    from .divisions import reachable_functions
+
+    n = 0
+    for q in reachable_functions(r, entries):
+        fi = r.prog.func(q) if hasattr(r.prog, "func") else None
+        if fi is None or fi.module == "__classes__":
+            continue
+        nodeparams = {p for p in fi.params if "node" in p.lower()}
+        if not nodeparams:
+            continue
+        for lp in ast.walk(fi.node):
+            if not isinstance(lp, ast.For):
+                continue
+            it = expand_locals(fi, lp.iter)
+            if not any(isinstance(x, ast.Name) and x.id in nodeparams for x in ast.walk(it)):
+                continue
+            n += 1
+            cur = _cursors(lp)
+            ok = not cur
+            chk.ob(rule, f"{q}: the loop over `{seg(lp.iter, 30)}` keeps no forward-only cursor", ok, loc=f"{fi.module}.py:{lp.lineno}",
+                   detail="" if ok else f"{q}: in the loop over `{seg(lp.iter, 30)}` the position `{cur[0][0]}` is only ever advanced from its previous value (`{seg(cur[0][1], 40)}` at line {cur[0][1].lineno}) and read by `{seg(cur[0][2], 50)}`: it never goes back, so a node that is smaller than one before it is answered from the wrong place — the caller's nodes come in no particular order",
+                   func=q, construct=f"forward-only cursor {cur[0][0]}" if cur else "")
+    chk.floor(rule, "loops over the caller's nodes on the evaluation path", n, floor)
     return n
